@@ -108,7 +108,7 @@ struct Run
    /// for the library that text is an entry, on disk it has no line of its own
    int              open_fragment = 0;
    int              blank_count = 0;
-   mutable bool     torn_border_before = false, torn_border_after = false;   // for explainTorn()
+   mutable bool     torn_border_before = false, torn_border_after = false, torn_prev_identified = true;   // for explainTorn()
    uint64_t         sim_seconds = 0;
    size_t           over_long_from = 0;
    /// file name with a date part: every date has its own series of generations
@@ -406,6 +406,7 @@ struct Run
          bool  bare = false;
          torn_border_before = (k > 0) && (lines[ k - 1].gen / 1000 != l.gen / 1000);
          torn_border_after = (k + 1 < lines.size()) && (lines[ k + 1].gen / 1000 != l.gen / 1000);
+         torn_prev_identified = (k == 0) || (lines[ k - 1].id >= 0);
          l.id = explainTorn( l.text, lower, upper, !l.terminated, 0, bare);
          if (l.id < 0)
          {
@@ -492,7 +493,10 @@ struct Run
                if (unterminated)
                {
                   bare = true;
-                  if (depth > 0 || ((torn_border_before || accountedFor( after, m)) && (torn_border_after || accountedFor( m, before))))
+                  // (only when the line in front is known: an unexplained line there
+                  // may itself contain the messages in between)
+                  if (depth > 0 || !torn_prev_identified
+                      || ((torn_border_before || accountedFor( after, m)) && (torn_border_after || accountedFor( m, before))))
                      return m;
                   if (fallback < 0) fallback = m;
                   break;   // next candidate message
